@@ -202,6 +202,7 @@ int main(int argc, char **argv) {
     if (sf) {
       struct { uint64_t sig; uint32_t pre; uint32_t flags; } rec = { st.signature, (uint32_t)(st.preemptions > 0xffffffffu ? 0xffffffffu : st.preemptions), mvh_run_flags };
       fwrite(&rec, sizeof rec, 1, sf);
+      if ((i & 15) == 15) fflush(sf);   /* a later run of this batch may end the process with a violation */
     }
     if (verbose || replay)
       printf("RUN i=%ld seed=%llu sig=%016llx steps=%llu preempt=%llu strategy=%d workers=%d flags=%u diverged=%d\n", i,
